@@ -59,7 +59,9 @@ func main() {
 			"ENUMERATED COMPLETELY: all trees of depth<=2 and width<=2 over {fifo+-agg, priority(prio in {0,1}), header.Filter(+-else), port.Filter} x 5 scopes with " +
 			"leaves {probe ok, probe failing} x 5 scopes (3825 trees; thorough additionally all 3.5M trees of depth<=3, width<=2 over {fifo+-agg, priority, header.Filter} x " +
 			"{absent,[request],[response]} with leaves {probe ok, failing} x {absent,[request]}), each on a condition-true and a condition-false exchange; " +
-			"RANDOM: trees of depth<=5, width<=4 (quick 3000, thorough 80000) x 4 exchanges steering filter conditions true and false, request then response; " +
+			"FIXED LISTS: 288 wide groups (1-48 children; priority groups with all-equal / alternating / few-valued priorities, fifo groups) and 360 groups in which a url / url-regex / querystring / port filter stands before or after a url.Modifier that rewrites the tested URL part; " +
+			"every message is handed over with a martian.Context (as the proxy does) that is plain, flagged skip-round-trip or flagged as a request to the proxy's own API; " +
+			"RANDOM: trees of depth<=5, width<=4 (a tenth up to width 20; leaves also url.Modifier) (quick 3000, thorough 80000) x 4 exchanges steering filter conditions true and false, request then response; " +
 			"invalid configurations (unknown name, two keys, no key, scope outside {request,response}, scope unsupported by the node, JSON syntax damaged at a chosen nesting depth) " +
 			"must be rejected by parse.FromJSON and answered 400; reconfiguration histories through martianhttp.Modifier.ServeHTTP (accepted / rejected POSTs interleaved with traffic), " +
 			"including re-POSTs of the active configuration up to whitespace (a fixed quarter of the histories) after traffic advanced the state of counting probes and after the programmatic SetRequestModifier/SetResponseModifier replaced a side, " +
@@ -162,6 +164,26 @@ func headerWithoutTrace(h http.Header) string {
 	return cfgx.HeaderString(c)
 }
 
+// withContext links a martian.Context to the request, as the proxy does for
+// every message it hands to modifiers, and puts it into one of the states a
+// context can be in (flags set by modifiers earlier in the proxy's chain):
+// plain, skip-round-trip, or marked as a request to the proxy's own API. None
+// of them changes what a configuration tree means.
+func withContext(req *http.Request, i int) (remove func()) {
+	ctx, remove, err := martian.TestContext(req, nil, nil)
+	if err != nil {
+		panic(err)
+	}
+	switch i % 3 {
+	case 1:
+		ctx.SkipRoundTrip()
+	case 2:
+		ctx.APIRequest()
+		ctx.SkipLogging()
+	}
+	return remove
+}
+
 // mismatch describes the first divergence between reference and martian.
 type mismatch struct {
 	Clause string `json:"clause"` // trace | effect | errors | accept
@@ -176,8 +198,11 @@ func (m *mismatch) String() string {
 }
 
 // compare checks one evaluation (kind k) against the reference state.
-func compare(k cfgx.Kind, st *cfgx.State, wantErrs []string, gotH http.Header, gotStatus int, gotErr error) (clause, what string) {
+func compare(k cfgx.Kind, st *cfgx.State, wantErrs []string, gotH http.Header, gotStatus int, gotErr error, gotURL string) (clause, what string) {
 	wantH := st.H(k)
+	if gotURL != st.URL() {
+		return "effect", fmt.Sprintf("request URL: want %s, got %s", st.URL(), gotURL)
+	}
 	if !sameList(wantH[cfgx.TraceHeader], gotH[cfgx.TraceHeader]) {
 		return "trace", fmt.Sprintf("probe trace: want %v, got %v", wantH[cfgx.TraceHeader], gotH[cfgx.TraceHeader])
 	}
@@ -277,12 +302,14 @@ func checkTree(t *cfgx.Node, msgs []*cfgx.Msg, cls func(string), evals *int) *mi
 			ref := &cfgx.Ref{St: st, Counts: counts}
 			want := ref.Run(t, cfgx.Req)
 			req := msg.Request()
+			remove := withContext(req, i)
 			var gerr error
 			if reqmod != nil {
 				gerr = reqmod.ModifyRequest(req)
 			}
 			*evals++
-			if c, w := compare(cfgx.Req, st, want, req.Header, 0, gerr); c != "" {
+			if c, w := compare(cfgx.Req, st, want, req.Header, 0, gerr, req.URL.String()); c != "" {
+				remove()
 				return &mismatch{Clause: c, Kind: "request", Msg: i, Via: viaName, What: w}
 			}
 			if cls != nil && via == 0 {
@@ -296,8 +323,9 @@ func checkTree(t *cfgx.Node, msgs []*cfgx.Msg, cls func(string), evals *int) *mi
 			if resmod != nil {
 				gerr = resmod.ModifyResponse(rs)
 			}
+			remove()
 			*evals++
-			if c, w := compare(cfgx.Res, st, want, rs.Header, rs.StatusCode, gerr); c != "" {
+			if c, w := compare(cfgx.Res, st, want, rs.Header, rs.StatusCode, gerr, req.URL.String()); c != "" {
 				return &mismatch{Clause: c, Kind: "response", Msg: i, Via: viaName, What: w}
 			}
 			if cls != nil && via == 0 {
@@ -484,6 +512,8 @@ func genTreeCase(r *vh.Run, stream string, idx int) treeCase {
 		o.ErrProb = 50
 	case 3:
 		o.LeafProbe = true
+	case 4:
+		o.MaxDepth, o.MaxWidth = 3, 20 // wide groups
 	}
 	t := cfgx.GenTree(rng, o)
 	return treeCase{Kind: "tree", Stream: stream, Idx: idx, Tree: t, Msgs: cfgx.GenMsgs(rng, t, 4)}
@@ -605,6 +635,115 @@ func runExh2(r *vh.Run) {
 	}
 	enumContainers(leaves, scopes, []string{cfgx.KFifo, cfgx.KPrio, cfgx.KHdr, cfgx.KPort}, do)
 	r.Count("exhaustive_depth2_trees", int64(count))
+	runWide(r)
+}
+
+// runWide: a fixed list of wide groups (1..48 children) - fifo groups and
+// priority groups whose priorities are all equal, alternate between 2 or 3
+// values, or are drawn from a small set (many ties) - with probe children,
+// some of them failing or scoped to one kind. Width is where insertion /
+// sorting strategies change behaviour.
+func runWide(r *vh.Run) {
+	msgs := exhMsgs()
+	wide := 0
+	for n := 1; n <= 48; n++ {
+		for pat := 0; pat < 6; pat++ {
+			rng := r.Rng("c12-wide", n*10+pat)
+			t := &cfgx.Node{Kind: cfgx.KPrio}
+			if pat == 5 {
+				t = &cfgx.Node{Kind: cfgx.KFifo, Agg: n%2 == 0}
+			}
+			for i := 0; i < n; i++ {
+				leaf := &cfgx.Node{Kind: cfgx.KProbe, A: map[string]string{"id": "w" + strconv.Itoa(i)}}
+				if pat >= 3 && rng.Intn(10) == 0 {
+					leaf.Scope = []cfgx.Scope{cfgx.ScReq, cfgx.ScRes}[rng.Intn(2)]
+				}
+				if pat == 4 && i == n-1 {
+					leaf.ErrOn = []cfgx.Kind{cfgx.Req, cfgx.Res}
+				}
+				t.Kids = append(t.Kids, leaf)
+				if t.Kind == cfgx.KPrio {
+					var p int64
+					switch pat {
+					case 0:
+						p = 7
+					case 1:
+						p = int64(i % 2)
+					case 2:
+						p = int64(i % 3)
+					default:
+						p = int64(rng.Intn(4)) - 1
+					}
+					t.Prio = append(t.Prio, p)
+				}
+			}
+			c := treeCase{Kind: "tree", Stream: "c12-wide", Idx: n*10 + pat, Tree: t, Msgs: msgs}
+			r.Case(map[string]interface{}{"kind": "wide", "n": n, "pattern": pat})
+			r.SetCase(c)
+			judgeTree(r, c)
+			wide++
+		}
+	}
+	r.Count("wide_group_trees", int64(wide))
+	runRewrite(r)
+}
+
+// runRewrite: a fixed list of groups in which a filter on the request URL
+// (url, url-regex, querystring, port) stands before or after a url.Modifier
+// that rewrites the part of the URL the filter tests: nodes after the rewrite,
+// and the response of the same exchange, must be decided by the rewritten URL.
+func runRewrite(r *vh.Run) {
+	filters := []*cfgx.Node{
+		{Kind: cfgx.KURL, A: map[string]string{"host": "a.example.com"}},
+		{Kind: cfgx.KURL, A: map[string]string{"path": "/p1"}},
+		{Kind: cfgx.KURL, A: map[string]string{"scheme": "https", "host": "b.example.com"}},
+		{Kind: cfgx.KURLRe, A: map[string]string{"regex": "/p1"}},
+		{Kind: cfgx.KURLRe, A: map[string]string{"regex": ":8080/"}},
+		{Kind: cfgx.KQS, A: map[string]string{"name": "k0", "value": "v0"}},
+		{Kind: cfgx.KQS, A: map[string]string{"name": "k1"}},
+		{Kind: cfgx.KPort, A: map[string]string{"port": "8080"}},
+		{Kind: cfgx.KPort, A: map[string]string{"port": "443"}},
+	}
+	rewrites := []map[string]string{
+		{"host": "a.example.com"}, {"host": "b.example.com"}, {"host": "a.example.com:8080"}, {"host": "c.example.net:443"},
+		{"path": "/p0"}, {"path": "/p1"}, {"query": "k0=v0"}, {"query": "k1=v1"}, {"scheme": "https", "host": "b.example.com"}, {"scheme": "http"},
+	}
+	msgs := []*cfgx.Msg{
+		{Method: "GET", Scheme: "http", Host: "a.example.com", Path: "/p1", Query: "k0=v0", Status: 200},
+		{Method: "GET", Scheme: "https", Host: "b.example.com", Path: "/p0", Query: "k1=v1", Status: 200},
+		{Method: "POST", Scheme: "http", Host: "a.example.com:8080", Path: "/p0/x", Status: 404},
+	}
+	n := 0
+	for fi, f := range filters {
+		for ri, rw := range rewrites {
+			for order := 0; order < 2; order++ {
+				for gk := 0; gk < 2; gk++ {
+					fn := f.Clone()
+					fn.Mod = &cfgx.Node{Kind: cfgx.KProbe, A: map[string]string{"id": "then"}}
+					if cfgx.HasElse(fn.Kind) {
+						fn.Else = &cfgx.Node{Kind: cfgx.KProbe, A: map[string]string{"id": "else"}}
+					}
+					um := &cfgx.Node{Kind: cfgx.KURLMod, A: map[string]string{}}
+					for k, v := range rw {
+						um.A[k] = v
+					}
+					kids := []*cfgx.Node{fn, um}
+					if order == 1 {
+						kids = []*cfgx.Node{um, fn}
+					}
+					t := &cfgx.Node{Kind: cfgx.KFifo, Kids: kids}
+					if gk == 1 {
+						t = &cfgx.Node{Kind: cfgx.KPrio, Kids: kids, Prio: []int64{1, 1}}
+					}
+					c := treeCase{Kind: "tree", Stream: "c12-rewrite", Idx: ((fi*16+ri)*2+order)*2 + gk, Tree: t, Msgs: msgs}
+					r.SetCase(c)
+					judgeTree(r, c)
+					n++
+				}
+			}
+		}
+	}
+	r.Count("url_rewrite_trees", int64(n))
 }
 
 func runExh3(r *vh.Run, child int) {
@@ -902,16 +1041,19 @@ func trafficAgainst(m *martianhttp.Modifier, act *active, msgs []*cfgx.Msg, eval
 		st := cfgx.NewState(msg)
 		want := act.expect(cfgx.Req, st)
 		req := msg.Request()
+		remove := withContext(req, i)
 		gerr := m.ModifyRequest(req)
 		*evals++
-		if c, w := compare(cfgx.Req, st, want, req.Header, 0, gerr); c != "" {
+		if c, w := compare(cfgx.Req, st, want, req.Header, 0, gerr, req.URL.String()); c != "" {
+			remove()
 			return &mismatch{Clause: c, Kind: "request", Msg: i, Via: "martianhttp", What: w}
 		}
 		want = act.expect(cfgx.Res, st)
 		rs := msg.Response(req)
 		gerr = m.ModifyResponse(rs)
+		remove()
 		*evals++
-		if c, w := compare(cfgx.Res, st, want, rs.Header, rs.StatusCode, gerr); c != "" {
+		if c, w := compare(cfgx.Res, st, want, rs.Header, rs.StatusCode, gerr, req.URL.String()); c != "" {
 			return &mismatch{Clause: c, Kind: "response", Msg: i, Via: "martianhttp", What: w}
 		}
 	}
@@ -1130,6 +1272,7 @@ func runConc(r *vh.Run, c concCase) {
 			for i := 0; i < perG; i++ {
 				j := (i + g) % len(msgs)
 				req := msgs[j].Request()
+				remove := withContext(req, j)
 				t0 := atomic.AddInt64(&seq, 1)
 				err := m.ModifyRequest(req)
 				t1 := atomic.AddInt64(&seq, 1)
@@ -1139,6 +1282,7 @@ func runConc(r *vh.Run, c concCase) {
 				t0 = atomic.AddInt64(&seq, 1)
 				err = m.ModifyResponse(rs)
 				t1 = atomic.AddInt64(&seq, 1)
+				remove()
 				calls[g] = append(calls[g], call{t0: t0, t1: t1, msg: j, kind: cfgx.Res, got: obsOutcome(rs.Header, rs.StatusCode, err), prev: qo, g: g})
 				atomic.AddInt64(&done, 1)
 			}
@@ -1380,10 +1524,12 @@ func runCPost(r *vh.Run, c cpostCase) {
 			}
 		}
 		req := msg.Request()
+		remove := withContext(req, round)
 		qerr := m.ModifyRequest(req)
 		qo := obsOutcome(req.Header, 0, qerr)
 		rs := msg.Response(req)
 		serr := m.ModifyResponse(rs)
+		remove()
 		so := obsOutcome(rs.Header, rs.StatusCode, serr)
 		ok := false
 		for _, i := range perm {
